@@ -148,11 +148,14 @@ def elemSkeleton : Elem → Bytes
   | .bind n => B "{" ++ n ++ B "}"
   | .params [] => B "???"
   | .params (p :: ps) =>
-    -- every bind parameter of the list; the only non-bind is the capture limit of a match-all
+    -- every bind parameter of the list: a regex list binds each regex-valued parameter; a list
+    -- whose first value is a literal (a match-all `{p: **, capture: 2}`) binds only the first
     B "{" ++ p.ident ++ B "}" ++
-      (ps.flatMap fun q => match q.val with
-        | .re _ => B "{" ++ q.ident ++ B "}"
-        | .lit _ => [])
+      (match p.val with
+       | .lit _ => []
+       | .re _ => ps.flatMap fun q => match q.val with
+          | .re _ => B "{" ++ q.ident ++ B "}"
+          | .lit _ => [])
 
 /-- the text before substitution; a route whose only segment is optional is "/" without it -/
 def skeleton (r : Route) (withOptional : Bool) : Bytes :=
